@@ -157,8 +157,8 @@ Proof.
     unfold take1 in Ht. cbn [embed nodes tail head cnt qsize qclosed initCap shrinkArmed] in Ht.
     destruct (rd (dnodes q) (dhead q)) as [j|] eqn:Hrd; [|discriminate]. cbn [bind] in Ht |- *.
     destruct (modn (dhead q + 1) (length (dnodes q))) as [h|] eqn:Hm; [|discriminate]. cbn [bind] in Ht |- *.
-    injection Ht as <- Hj.
-    set (q1 := mkDq (dnodes q) h (dtail q) (dcnt q - 1) (dclosed q) (dinit q)) in *.
+    injection Ht as <- Hj. rewrite Ec in Wr, Ar.
+    set (q1 := mkDq (dnodes q) h (dtail q) (dcnt q - 1) false (dinit q)) in *.
     assert (W1 : WF (embed q1)) by exact Wr.
     assert (A1 : dabs q = j :: dabs q1) by (unfold dabs; rewrite Ar, Hj; reflexivity).
     cbn [dnodes dinit dcnt q1].
@@ -178,22 +178,133 @@ Proof.
       destruct (dresize_post q1 (length (dnodes q) / 2) ns) as (W' & A'); auto; cbn [dcnt dinit q1]; try lia.
       rewrite Hr. cbn [bind]. eexists _, (Some j). split; [reflexivity|]. cbn [dclosed dinit dcnt q1] in *.
       split; [|repeat split; auto; rewrite A1, A'; reflexivity].
-      split; [cbn; lia|]. cbn [dclosed]. rewrite Ec. split; [cbn; lia|]. split; [exact W'|].
+      split; [cbn; lia|]. cbn [dclosed]. split; [cbn; lia|]. split; [exact W'|].
       cbn [dnodes dcnt dinit]. rewrite Ln. split; [exists k; exact Hhalf|].
       right. nia.
     + cbn [bind]. eexists _, (Some j). split; [reflexivity|]. fold q1.
       split; [|repeat split; auto].
-      split; [cbn; lia|]. cbn [dclosed q1]. rewrite Ec. split; [cbn; lia|]. split; [exact W1|].
-      cbn [dnodes dcnt dinit]. split; [exists k; exact Hk|].
+      split; [cbn; lia|]. cbn [dclosed q1]. split; [cbn; lia|]. split; [exact W1|].
+      split; [exists k; exact Hk|]. subst q1. cbn [dnodes dcnt dinit].
       destruct Hs as [Hs|Hs]; [left; exact Hs|].
       apply andb_false_iff in E. destruct E as [E|E]; [apply Nat.leb_gt in E|apply Nat.leb_gt in E].
       * left. destruct k as [|k]; [cbn in Hk; lia|].
         exfalso. rewrite Hk in E. cbn [Nat.pow] in E.
         replace (dinit q * (2 * 2 ^ k)) with ((dinit q * 2 ^ k) * 2) in E by lia.
         rewrite Nat.div_mul in E by lia. pose proof (Nat.pow_nonzero 2 k). nia.
-      * right. pose proof (Nat.div_mod (length (dnodes q)) 2). 
-        destruct k as [|k]; [cbn in Hk; lia|].
-        rewrite Hk in *. cbn [Nat.pow] in *.
-        replace (dinit q * (2 * 2 ^ k)) with ((dinit q * 2 ^ k) * 2) in * by lia.
-        rewrite Nat.div_mul in E by lia. lia.
+      * destruct k as [|k]; [left; cbn in Hk; lia|]. right.
+        assert (Hhalf : length (dnodes q) / 2 = dinit q * 2 ^ k).
+        { rewrite Hk. cbn [Nat.pow]. replace (dinit q * (2 * 2 ^ k)) with ((dinit q * 2 ^ k) * 2) by lia.
+          apply Nat.div_mul. lia. }
+        rewrite Hhalf in E. rewrite Hk. cbn [Nat.pow]. lia.
+Qed.
+
+(* ---------------------------------------------------------------- (B) the dissolver *)
+Lemma flat_map_updw {B} (f : wpc -> list B) ws : forall w p p',
+  nth_error ws w = Some p ->
+  exists rest, Permutation (flat_map f ws) (f p ++ rest) /\
+               Permutation (flat_map f (updw ws w p')) (f p' ++ rest).
+Proof.
+  induction ws as [|h t IH]; intros w p p' H; destruct w; cbn in H; try discriminate.
+  - injection H as ->. exists (flat_map f t). cbn. split; apply Permutation_refl.
+  - destruct (IH w p p' H) as (rest & P1 & P2). exists (f h ++ rest). cbn. split.
+    + rewrite P1. rewrite !app_assoc. apply Permutation_app_tail. apply Permutation_app_comm.
+    + rewrite P2. rewrite !app_assoc. apply Permutation_app_tail. apply Permutation_app_comm.
+Qed.
+
+Lemma getw_updw ws : forall w p w', getw (updw ws w p) w' =
+  if w =? w' then (match getw ws w with Some _ => Some p | None => None end) else getw ws w'.
+Proof.
+  unfold getw. induction ws as [|h t IH]; intros w p w'.
+  - destruct w, w'; cbn; auto. destruct (w =? w'); auto.
+  - destruct w, w'; cbn; auto.
+Qed.
+
+Lemma job_in_false j l : job_in j l = false <-> ~ In (it_id j) (map it_id l).
+Proof.
+  unfold job_in. induction l as [|x l IH]; cbn; [tauto|].
+  rewrite orb_false_iff, IH. unfold job_eqb. rewrite N.eqb_neq. intuition congruence.
+Qed.
+
+Lemma job_in_app j a b : job_in j (a ++ b) = job_in j a || job_in j b.
+Proof. apply existsb_app. Qed.
+
+Definition check_ev (e : dev) (done : list job) : bool :=
+  match e with EStart j _ => negb (job_in j done) | _ => true end.
+
+Lemma ok_log_snoc l : forall d e, ok_log d (l ++ [e]) = ok_log d l && check_ev e (d ++ done_of l).
+Proof.
+  induction l as [|x l IH]; intros d e; cbn [app ok_log done_of].
+  - rewrite app_nil_r. destruct e as [j f|j [|]]; cbn; rewrite ?andb_true_r; reflexivity.
+  - destruct x as [j f|j [|]]; cbn [ok_log done_of]; rewrite IH.
+    + rewrite andb_assoc. reflexivity.
+    + rewrite <- app_assoc. reflexivity.
+    + reflexivity.
+Qed.
+
+Lemma done_of_snoc l e : done_of (l ++ [e]) = done_of l ++ match e with EFinish j true => [j] | _ => [] end.
+Proof.
+  induction l as [|x l IH]; cbn.
+  - destruct e as [j f|j [|]]; reflexivity.
+  - destruct x as [j f|j [|]]; cbn; rewrite IH; reflexivity.
+Qed.
+
+Lemma late_starts_snoc l e :
+  late_starts (l ++ [e]) = late_starts l ++ match e with EStart j true => [j] | _ => [] end.
+Proof.
+  induction l as [|x l IH]; cbn.
+  - destruct e as [j [|]|j f]; reflexivity.
+  - destruct x as [j [|]|j f]; cbn; rewrite IH; reflexivity.
+Qed.
+
+Record DSInv (s : dst) : Prop := mkDSInv {
+  ds_q : DInv (d_q s);
+  ds_cons : exists lost, Permutation (d_accepted s) (d_succeeded s ++ dabs (d_q s) ++ held s ++ lost) /\
+                         (dclosed (d_q s) = false -> lost = []);
+  ds_fresh : NoDup (map it_id (d_accepted s ++ d_rejected s));
+  ds_done : d_succeeded s = done_of (d_log s);
+  ds_log : ok_log [] (d_log s) = true;
+  ds_open : dclosed (d_q s) = false -> late_starts (d_log s) = [] /\ forall w, getw (d_w s) w <> Some WExit
+}.
+
+Lemma DSInv_init ic nw : 1 <= ic -> DSInv (dinitial ic nw).
+Proof.
+  intros H. destruct (DInv_new ic H) as (HI & HA).
+  constructor; cbn; auto.
+  - exists []. split; auto.
+    assert (E : flat_map job_of (repeat WIdle nw) = []) by (induction nw; cbn; auto).
+    rewrite E. constructor.
+  - constructor.
+  - intros _. split; auto. intros w. unfold getw. revert w. induction nw; intros [|w]; cbn; try discriminate; auto.
+Qed.
+
+Lemma nodup_app_l {A} (a b : list A) : NoDup (a ++ b) -> NoDup a.
+Proof.
+  induction a; cbn; intros H; [constructor|]. inversion H; subst. constructor; auto.
+  intros Hin. apply H2. apply in_or_app. auto.
+Qed.
+
+Lemma nodup_app_disj {A} (a b : list A) x : NoDup (a ++ b) -> In x a -> In x b -> False.
+Proof.
+  induction a as [|y a IH]; cbn; intros H Ha Hb; [contradiction|]. inversion H; subst.
+  destruct Ha as [->|Ha]; [apply H2; apply in_or_app; auto|auto].
+Qed.
+
+(* the ids of held/queued/succeeded jobs are pairwise distinct *)
+Lemma cons_nodup s : DSInv s ->
+  exists lost, NoDup (map it_id (d_succeeded s ++ dabs (d_q s) ++ held s ++ lost)).
+Proof.
+  intros HS. destruct (ds_cons _ HS) as (lost & P & _). exists lost.
+  pose proof (ds_fresh _ HS) as ND. rewrite map_app in ND. apply nodup_app_l in ND.
+  eapply Permutation_NoDup; [apply Permutation_map; exact P|exact ND].
+Qed.
+
+Lemma held_not_succeeded s w j : DSInv s -> getw (d_w s) w = Some (WHold j) -> job_in j (d_succeeded s) = false.
+Proof.
+  intros HS Hw. destruct (cons_nodup s HS) as (lost & ND).
+  destruct (flat_map_updw job_of (d_w s) w (WHold j) WIdle Hw) as (rest & P1 & _).
+  apply job_in_false. intros Hin.
+  assert (Hheld : In (it_id j) (map it_id (held s))).
+  { apply in_map. unfold held. eapply Permutation_in; [apply Permutation_sym; exact P1|]. cbn. auto. }
+  rewrite map_app in ND. eapply nodup_app_disj; [exact ND|exact Hin|].
+  rewrite !map_app. apply in_or_app. right. apply in_or_app. left. exact Hheld.
 Qed.
